@@ -44,6 +44,17 @@ static void one(const std::vector<bgen::Elem> &alph, const Stored &st, const std
         built_ok = false; size_t k = 0; while(g_buf[k] == expect[k]) ++k;
         vp::violation("bundle-bytes|rtosc_bundle|" + shape, cid, "first differing byte at offset " + std::to_string(k));
     }
+    // the same into a destination of exactly the bundle's size (composition must not depend on spare room)
+    if(built_ok) {
+        static char exact[BUFSZ + 64];
+        memset(exact, 0xA5, sizeof exact);
+        size_t r2 = 0;
+        int sig2 = guard::guarded([&] { r2 = varcall::call_bundle(exact, expect.size(), tt, ptrs); });
+        vp::transition();
+        if(sig2) vp::violation("crash|rtosc_bundle|exact-size-destination," + shape, cid, "signal " + std::to_string(sig2));
+        else if(r2 != expect.size() || memcmp(exact, expect.data(), r2)) vp::violation("bundle-length|rtosc_bundle|exact-size-destination," + shape, cid, "destination of exactly " + std::to_string(expect.size()) + " bytes: returned " + std::to_string(r2));
+        else if((unsigned char)exact[expect.size()] != 0xA5) vp::violation("write-outside|rtosc_bundle|exact-size-destination," + shape, cid, "byte behind the destination changed");
+    }
     // decompose: from the library's output if it is right, else from the reference bytes (readers are checked regardless)
     if(!built_ok) { memset(g_buf, 0, sizeof g_buf); memcpy(g_buf, expect.data(), expect.size()); shape = std::string(has_nested ? "nested-element" : "messages-only") + ",reference-bytes"; }
     const size_t len = expect.size();
@@ -81,17 +92,17 @@ int main(int argc, char **argv)
     Stored st;
     for(int l = 0; l < 2; ++l) for(auto &e : alph) { std::string m = e.bytes; m.append((const char *)(l ? TAIL1 : TAIL0), 16); st.mem[l].push_back(m); }
     std::vector<std::vector<int>> seqs;
-    bgen::sequences(alph.size(), 0, T ? 4 : 3, seqs);
+    bgen::sequences(alph.size(), 0, T ? 5 : 3, seqs);
     size_t n_main = seqs.size();
     // long sequences over a 2-letter sub-alphabet (smallest message, smallest non-empty nested bundle), up to the API's 8 elements
     {
-        std::vector<std::vector<int>> longs; bgen::sequences(2, T ? 5 : 4, 8, longs);
+        std::vector<std::vector<int>> longs; bgen::sequences(2, T ? 6 : 4, 8, longs);
         int sub[2] = {0, 6};
         for(auto &s : longs) { std::vector<int> t; for(int k : s) t.push_back(sub[k]); seqs.push_back(t); }
     }
     vp::bound("element_alphabet", (long long)alph.size());
     vp::bound("nesting_depth", "0.." + std::to_string(maxdepth));
-    vp::bound("sequences", "all of length 0.." + std::to_string(T ? 4 : 3) + " over the alphabet (" + std::to_string(n_main) + ") + all of length " + std::to_string(T ? 5 : 4) + "..8 over {m8, one-element nested bundle}");
+    vp::bound("sequences", "all of length 0.." + std::to_string(T ? 5 : 3) + " over the alphabet (" + std::to_string(n_main) + ") + all of length " + std::to_string(T ? 5 : 4) + "..8 over {m8, one-element nested bundle}");
     vp::bound("timetags", "7 (0,1,2^32-1,2^32,2^63,2^64-1,0x0102030405060708): all for sequences of length <= 2, rotating beyond");
     vp::bound("layouts", "element followed by zero bytes / by bytes that look like one more size-prefixed element");
     for(auto &e : alph) vp::sample(e.name + " (" + std::to_string(e.bytes.size()) + " bytes)", 12);
